@@ -1,464 +1,24 @@
 #!/usr/bin/env python3
 """Generated-code harness (suite binary `.build/gen`): random multi-file IDL programs are compiled by the
 REAL frugal compiler, the emitted Go is built together with a generic reflection runner
-(harness/gen/runner) in a scratch module, and values / TProtocol event streams are pushed through the
-emitted Read/Write code. Output: the usual C/O/S/X line protocol of bin/check.
+(harness/gen/runner) in a scratch module, and values / TProtocol event streams / calls are pushed through
+the emitted code. Output: the usual C/O/S/X line protocol of bin/check.
 
-  gen.py c02 -seed N -n N     types: Write vs declared encoding, Read of conforming / extended / deficient
-                              streams, round trip through the real binary, compact and JSON protocols
+  gen.py <suite> -seed N -n N       suites are defined in harness/gen/suites/*.py (each exports SUITES)
 """
-import os, re, shutil, subprocess, sys, tempfile, json, struct
-
-VERIF = os.path.dirname(os.path.dirname(os.path.dirname(os.path.abspath(__file__))))
-REPO = os.environ.get("VERIF_REPO", "/repo")
-BUILD = os.path.join(VERIF, ".build")
-GOENV = dict(os.environ, GOFLAGS="-mod=mod", GOPROXY="off", GOSUMDB="off", GOTOOLCHAIN="local")
-MOD = "verifmod"
+import glob, importlib.util, os, sys
+sys.path.insert(0, os.path.dirname(os.path.abspath(__file__)))
+import genlib
 
 
-# ------------------------------------------------------------------ PRNG (splitmix64)
-class Rng:
-    def __init__(self, seed):
-        z = (seed + 0x9E3779B97F4A7C15) & (2**64 - 1)
-        z = ((z ^ (z >> 30)) * 0xBF58476D1CE4E5B9) & (2**64 - 1)
-        z = ((z ^ (z >> 27)) * 0x94D049BB133111EB) & (2**64 - 1)
-        self.s = z ^ (z >> 31)
-
-    def u64(self):
-        self.s = (self.s + 0x9E3779B97F4A7C15) & (2**64 - 1)
-        z = self.s
-        z = ((z ^ (z >> 30)) * 0xBF58476D1CE4E5B9) & (2**64 - 1)
-        z = ((z ^ (z >> 27)) * 0x94D049BB133111EB) & (2**64 - 1)
-        return z ^ (z >> 31)
-
-    def intn(self, n): return self.u64() % n if n > 0 else 0
-    def chance(self, p): return self.intn(100) < p
-    def pick(self, xs): return xs[self.intn(len(xs))]
-    def shuffle(self, xs):
-        xs = list(xs)
-        for i in range(len(xs) - 1, 0, -1):
-            j = self.intn(i + 1); xs[i], xs[j] = xs[j], xs[i]
-        return xs
-
-
-# ------------------------------------------------------------------ output protocol
-stats, nsamples = {}, [0]
-def Case(inp, real): print("C\t%s\t%s" % (inp, real))
-def OracleFail(what, detail): detail = dict(detail, what=what); print("O\t" + json.dumps(detail))
-def Known(i, what): print("K\t%s\t%s" % (i, what))
-def Stat(k, n=1): stats[k] = stats.get(k, 0) + n
-def Sample(v):
-    if nsamples[0] < 6: nsamples[0] += 1; print("X\t" + json.dumps(v))
-def Finish():
-    for k in sorted(stats): print("S\t%s\t%d" % (k, stats[k]))
-    sys.stdout.flush()
-
-
-# ------------------------------------------------------------------ IDL model
-BASE = {"bool": "b", "byte": "y", "i16": "h", "i32": "i", "i64": "l", "double": "d", "string": "s", "binary": "x"}
-WIRE = {"b": 2, "y": 3, "d": 4, "h": 6, "i": 8, "l": 10, "s": 11, "x": 11, "E": 8, "S": 12, "M": 13, "Z": 14, "L": 15}
-KEYABLE = ["bool", "byte", "i16", "i32", "i64", "string"]
-
-class Ty:
-    """k in BASE codes or E S T (named: file, name) or L Z M."""
-    def __init__(self, k, a=None, b=None, file=None, name=None): self.k, self.a, self.b, self.file, self.name = k, a, b, file, name
-    def code(self):
-        if self.k in "EST": return "%s%s/%s." % (self.k, self.file, self.name)
-        if self.k in "LZ": return self.k + self.a.code()
-        if self.k == "M": return "M" + self.a.code() + self.b.code()
-        return self.k
-    def idl(self, cur):
-        if self.k in "EST": return self.name if self.file == cur else "%s.%s" % (self.file, self.name)
-        if self.k == "L": return "list<%s>" % self.a.idl(cur)
-        if self.k == "Z": return "set<%s>" % self.a.idl(cur)
-        if self.k == "M": return "map<%s,%s>" % (self.a.idl(cur), self.b.idl(cur))
-        return {v: k for k, v in BASE.items()}[self.k]
-
-class Prog:
-    def __init__(self, pid):
-        self.pid = pid
-        self.files = []                 # file names, includes first, main last
-        self.typedefs = {}              # (file,name) -> Ty
-        self.enums = {}                 # (file,name) -> [numbers]
-        self.structs = {}               # (file,name) -> (kind, [(id, req, fname, Ty)])
-        self.order = {}                 # file -> [("t"|"e"|"r", name)] declaration order
-        self.includes = {}              # file -> [files]
-
-    def resolve(self, t):
-        n = 0
-        while t.k == "T" and n < 64:
-            t = self.typedefs[(t.file, t.name)]; n += 1
-        return t
-
-    def wire(self, t): return WIRE[self.resolve(t).k]
-
-    def defs_code(self):
-        items = []
-        for (f, n), t in self.typedefs.items(): items.append("t%s/%s=%s" % (f, n, t.code()))
-        for (f, n), vals in self.enums.items(): items.append("e%s/%s=%s" % (f, n, ",".join(str(v) for v in vals)))
-        for (f, n), (kind, fields) in self.structs.items():
-            items.append("r%s%s/%s(%s)" % (kind, f, n, ";".join("%d,%s,%s,%s" % (i, r, fn, t.code()) for (i, r, fn, t) in fields)))
-        return "|".join(items) if items else "-"
-
-    def text(self, file):
-        out = ["namespace go %s" % file]
-        for inc in self.includes.get(file, []): out.append('include "%s.frugal"' % inc)
-        for kind, name in self.order[file]:
-            if kind == "t": out.append("typedef %s %s" % (self.typedefs[(file, name)].idl(file), name))
-            elif kind == "e":
-                out.append("enum %s {\n%s\n}" % (name, ",\n".join("  V%s%d = %d" % (name, i, v) for i, v in enumerate(self.enums[(file, name)]))))
-            else:
-                k, fields = self.structs[(file, name)]
-                kw = {"s": "struct", "u": "union", "x": "exception"}[k]
-                lines = []
-                for (i, r, fn, t) in fields:
-                    mod = {"r": "required ", "o": "optional ", "d": ""}[r] if k != "u" else ""
-                    lines.append("  %d: %s%s %s" % (i, mod, t.idl(file), fn))
-                out.append("%s %s {\n%s\n}" % (kw, name, ",\n".join(lines)))
-        return "\n".join(out) + "\n"
-
-
-WORDS = ["Alpha", "Beta", "Gamma", "Delta", "Omega", "Sigma", "Kappa", "Theta", "Zeta", "Iota", "Lambda", "Rho"]
-
-def gen_prog(r, pid):
-    p = Prog(pid)
-    nfiles = r.pick([1, 1, 2, 2, 3])
-    files = ["p%di%d" % (pid, i) for i in range(nfiles - 1)] + ["p%dmain" % pid]
-    p.files = files
-    counter = [0]
-    def fresh(prefix):
-        counter[0] += 1
-        return "%s%s%d" % (prefix, r.pick(WORDS), counter[0])
-    for fi, f in enumerate(files):
-        p.order[f] = []
-        p.includes[f] = files[:fi] if f == files[-1] else (files[:fi] if r.chance(50) else [])
-        visible = [f] + p.includes[f]
-        def named_pool(kinds, local_only=False):
-            res = []
-            for (ff, n), t in p.typedefs.items():
-                if "T" in kinds and ff in visible and (ff == f or base_only(t)) and not (local_only and ff != f): res.append(Ty("T", file=ff, name=n))
-            for (ff, n) in p.enums:
-                if "E" in kinds and ff in visible: res.append(Ty("E", file=ff, name=n))
-            for (ff, n) in p.structs:
-                if "S" in kinds and ff in visible: res.append(Ty("S", file=ff, name=n))
-            return res
-        def base_only(t):
-            # cross-file typedefs must resolve without a second named hop in the other file (known finding
-            # typedef-second-hop-in-include): only base types and containers of base types
-            if t.k in "EST": return False
-            if t.k in "LZ": return base_only(t.a)
-            if t.k == "M": return base_only(t.a) and base_only(t.b)
-            return True
-        def key_ty():
-            pool = [Ty(BASE[k]) for k in KEYABLE]
-            pool += [t for t in named_pool("ET") if p.resolve(t).k in "byhilsE"]
-            return r.pick(pool)
-        def gen_ty(depth, allow_named="EST"):
-            c = r.intn(10)
-            if depth <= 0 or c < 4:
-                return Ty(r.pick(list(BASE.values())))
-            if c < 6:
-                pool = named_pool(allow_named)
-                if pool: return r.pick(pool)
-                return Ty(r.pick(list(BASE.values())))
-            if c < 8: return Ty("L", gen_ty(depth - 1, allow_named))
-            if c < 9: return Ty("Z", key_ty())
-            return Ty("M", key_ty(), gen_ty(depth - 1, allow_named))
-        ndecl = 3 + r.intn(6)
-        for _ in range(ndecl):
-            c = r.intn(10)
-            if c < 2:
-                n = fresh("Td")
-                p.typedefs[(f, n)] = gen_ty(2, "ET")       # typedef of struct is generated as a Go type alias chain; keep to E/T/base/containers
-                p.order[f].append(("t", n))
-            elif c < 4:
-                n = fresh("En")
-                vals, cur = [], r.intn(3)
-                for _ in range(1 + r.intn(4)):
-                    vals.append(cur); cur += 1 + r.intn(4)
-                p.enums[(f, n)] = vals
-                p.order[f].append(("e", n))
-            else:
-                kind = r.pick(["s", "s", "s", "u", "x"])
-                n = fresh({"s": "St", "u": "Un", "x": "Ex"}[kind])
-                fields, fid = [], 0
-                for _ in range((1 if kind == "u" else 0) + r.intn(6)):
-                    fid += 1 + r.intn(3)
-                    req = "o" if kind == "u" else r.pick(["r", "o", "d", "d"])
-                    fields.append((fid, req, "f%s%d" % (r.pick(WORDS).lower(), fid), gen_ty(3)))
-                p.structs[(f, n)] = (kind, fields)
-                p.order[f].append(("r", n))
-    return p
-
-
-# ------------------------------------------------------------------ values (python trees) and renderings
-def hexs(b): return b.hex()
-
-def gen_bytes(r, text):
-    n = r.pick([0, 0, 1, 2, 3, 5, 9])
-    if text: return "".join(r.pick(["a", "b", "Z", "0", " ", "é", "日", "_"]) for _ in range(n)).encode()
-    return bytes(r.intn(256) for _ in range(n))
-
-def gen_val(r, p, t, depth=0):
-    t = p.resolve(t)
-    k = t.k
-    if k == "b": return ("b", r.chance(50))
-    if k in "yhil":
-        bits = {"y": 8, "h": 16, "i": 32, "l": 64}[k]
-        c = r.intn(8)
-        if c == 0: v = 0
-        elif c == 1: v = -1
-        elif c == 2: v = 2**(bits - 1) - 1
-        elif c == 3: v = -2**(bits - 1)
-        else: v = r.intn(2**bits) - 2**(bits - 1) if r.chance(30) else r.intn(200) - 100
-        return ("n", v)
-    if k == "E": return ("n", r.pick(p.enums[(t.file, t.name)]))
-    if k == "d":
-        c = r.intn(6)
-        if c == 0: bits = 0
-        elif c == 1: bits = struct.unpack(">Q", struct.pack(">d", 1.5))[0]
-        elif c == 2: bits = struct.unpack(">Q", struct.pack(">d", -2.25e10))[0]
-        elif c == 3: bits = 0x7ff0000000000000
-        else: bits = struct.unpack(">Q", struct.pack(">d", (r.intn(20001) - 10000) / 8.0))[0]
-        return ("g", bits)
-    if k == "s": return ("q", gen_bytes(r, True))
-    if k == "x": return ("q", gen_bytes(r, False))
-    if k == "L":
-        n = 0 if depth > 3 else r.pick([0, 1, 2, 3])
-        return ("[", [gen_val(r, p, t.a, depth + 1) for _ in range(n)])
-    if k == "Z":
-        n = 0 if depth > 3 else r.pick([0, 1, 2, 3])
-        items = {}
-        for _ in range(n):
-            v = gen_val(r, p, t.a, depth + 1); items[dump_val(v)] = v
-        return ("[", list(items.values()))
-    if k == "M":
-        n = 0 if depth > 3 else r.pick([0, 1, 2, 3])
-        items = {}
-        for _ in range(n):
-            kv = gen_val(r, p, t.a, depth + 1); items[dump_val(kv)] = (kv, gen_val(r, p, t.b, depth + 1))
-        return ("{", list(items.values()))
-    if k == "S": return gen_struct(r, p, (t.file, t.name), depth + 1)
-    raise ValueError(k)
-
-def gen_struct(r, p, key, depth=0):
-    kind, fields = p.structs[key]
-    fv = {}
-    if kind == "u":
-        if fields:
-            (i, _, _, t) = r.pick(fields); fv[i] = gen_val(r, p, t, depth)
-    else:
-        for (i, req, _, t) in fields:
-            if req in "rd" or (depth < 4 and r.chance(60)):
-                if depth >= 6 and p.resolve(t).k == "S" and req == "o": continue
-                fv[i] = gen_val(r, p, t, depth)
-    return ("(", fv)
-
-def dump_val(v):
-    """canonical value syntax (also what the runner prints after Read)."""
-    k, x = v
-    if k == "b": return "t" if x else "f"
-    if k == "n": return "n%d;" % x
-    if k == "g": return "g%016x" % x
-    if k == "q": return "q%s;" % x.hex()
-    if k == "[": return "[" + "".join(dump_val(i) for i in x) + "]"
-    if k == "{": return "{" + "".join(dump_val(a) + dump_val(b) for a, b in x) + "}"
-    if k == "(": return "(" + "".join("%d=%s" % (i, dump_val(x[i])) for i in sorted(x)) + ")"
-
-def canon_dump(p, t, v):
-    """dump with sets/maps sorted by rendering (what a reader of the value is expected to hold)."""
-    t = p.resolve(t)
-    k, x = v
-    if t.k == "L": return "[" + "".join(canon_dump(p, t.a, i) for i in x) + "]"
-    if t.k == "Z": return "[" + "".join(sorted(canon_dump(p, t.a, i) for i in x)) + "]"
-    if t.k == "M": return "{" + "".join(sorted(canon_dump(p, t.a, a) + canon_dump(p, t.b, b) for a, b in x)) + "}"
-    if t.k == "S":
-        kind, fields = p.structs[(t.file, t.name)]
-        ft = {i: ty for (i, _, _, ty) in fields}
-        return "(" + "".join("%d=%s" % (i, canon_dump(p, ft[i], x[i])) for i in sorted(x)) + ")"
-    return dump_val(v)
-
-def tree(p, t, v):
-    """the DECLARED encoding of v as a canonical wire tree (spec oracle, written from Thrift's rules)."""
-    t = p.resolve(t)
-    k, x = v
-    if t.k == "b": return "B%d" % (1 if x else 0)
-    if t.k in "yhil": return {"y": "Y", "h": "H", "i": "I", "l": "L"}[t.k] + str(x)
-    if t.k == "E": return "I%d" % x
-    if t.k == "d": return "D%016x" % x
-    if t.k in "sx": return "S" + x.hex()
-    if t.k == "L": return "LS(%d)[%s]" % (p.wire(t.a), ",".join(tree(p, t.a, i) for i in x))
-    if t.k == "Z": return "ST(%d){%s}" % (p.wire(t.a), ",".join(sorted(tree(p, t.a, i) for i in x)))
-    if t.k == "M": return "MP(%d,%d){%s}" % (p.wire(t.a), p.wire(t.b), ",".join(sorted(tree(p, t.a, a) + "=" + tree(p, t.b, b) for a, b in x)))
-    if t.k == "S":
-        kind, fields = p.structs[(t.file, t.name)]
-        parts = []
-        for (i, req, fn, ty) in sorted(fields):
-            if i in x: parts.append("%d:%s:%d=%s" % (i, fn, p.wire(ty), tree(p, ty, x[i])))
-        return "R(%s){%s}" % (t.name, ";".join(parts))
-
-def events(r, p, t, v, extra_unknown=False, drop=None, top=False):
-    """a conforming TProtocol event stream for v (compact tokens), fields and entries in random order;
-    optionally with unknown fields injected / one field id dropped at the top level."""
-    t = p.resolve(t)
-    k, x = v
-    if t.k == "b": return ["BOOL:%d" % (1 if x else 0)]
-    if t.k in "yhil": return ["%s:%d" % ({"y": "BYTE", "h": "I16", "i": "I32", "l": "I64"}[t.k], x)]
-    if t.k == "E": return ["I32:%d" % x]
-    if t.k == "d": return ["DBL:%016x" % x]
-    if t.k == "s": return ["STR:" + x.hex()]
-    if t.k == "x": return ["BIN:" + x.hex()]
-    if t.k == "L":
-        return ["LB:%d:%d" % (p.wire(t.a), len(x))] + [e for i in x for e in events(r, p, t.a, i)] + ["LE"]
-    if t.k == "Z":
-        return ["TB:%d:%d" % (p.wire(t.a), len(x))] + [e for i in r.shuffle(x) for e in events(r, p, t.a, i)] + ["TE"]
-    if t.k == "M":
-        return ["MB:%d:%d:%d" % (p.wire(t.a), p.wire(t.b), len(x))] + [e for a, b in r.shuffle(x) for e in events(r, p, t.a, a) + events(r, p, t.b, b)] + ["ME"]
-    if t.k == "S":
-        kind, fields = p.structs[(t.file, t.name)]
-        ids = {i for (i, _, _, _) in fields}
-        out = ["SB:" + t.name]
-        fl = [f for f in fields if f[0] in x and not (top and f[0] == drop)]
-        chunks = [["FB:%s:%d:%d" % (fn, p.wire(ty), i)] + events(r, p, ty, x[i]) + ["FE"] for (i, req, fn, ty) in r.shuffle(fl)]
-        if extra_unknown:
-            for _ in range(1 + r.intn(3)):
-                uid = r.intn(60) + 1
-                while uid in ids: uid += 1
-                ids.add(uid)
-                kind_u = r.intn(5)
-                body = [["I32:%d" % r.intn(1000)], ["STR:%s" % gen_bytes(r, True).hex()],
-                        ["LB:10:2", "I64:1", "I64:2", "LE"],
-                        ["SB:Unk", "FB:a:2:1", "BOOL:1", "FE", "FB:b:13:2", "MB:11:8:1", "STR:6b", "I32:5", "ME", "FE", "FS", "SE"],
-                        ["MB:8:15:1", "I32:7", "LB:11:1", "STR:", "LE", "ME"]][kind_u]
-                tt = [8, 11, 15, 12, 13][kind_u]
-                chunks.insert(r.intn(len(chunks) + 1), ["FB:unk%d:%d:%d" % (uid, tt, uid)] + body + ["FE"])
-        for c in chunks: out += c
-        return out + ["FS", "SE"]
-
-
-# ------------------------------------------------------------------ build + run
-def sh(cmd, cwd=None, timeout=900):
-    p = subprocess.run(cmd, cwd=cwd, env=GOENV, capture_output=True, text=True, timeout=timeout)
-    return p.returncode, p.stdout, p.stderr
-
-def build_and_run(progs, jobs):
-    """progs: [Prog]; jobs: [(op, defsId, goType, sname, payload)] -> list of real outputs (None on build failure)."""
-    frugal = os.path.join(BUILD, "frugal")
-    scratch = tempfile.mkdtemp(prefix="verif-gen-")
-    try:
-        mod = os.path.join(scratch, "mod")
-        os.makedirs(os.path.join(mod, "gen"))
-        ctors, imports = [], set()
-        for p in progs:
-            idl = os.path.join(scratch, "idl", "p%d" % p.pid)
-            os.makedirs(idl)
-            for f in p.files: open(os.path.join(idl, f + ".frugal"), "w").write(p.text(f))
-            rc, out, err = sh([frugal, "-gen", "go:package_prefix=%s/gen/" % MOD, "-r", "-out", os.path.join(mod, "gen"), p.files[-1] + ".frugal"], cwd=idl)
-            if rc != 0:
-                return None, "frugal failed on program %d: %s\n%s" % (p.pid, (out + err)[-1500:], "\n".join(p.text(f) for f in p.files))
-            for (f, n) in p.structs:
-                imports.add(f)
-                ctors.append('\t"%s/%s": func() thrift.TStruct { return %s.New%s() },' % (f, n, f, n))
-        with open(os.path.join(mod, "registry_gen.go"), "w") as g:
-            g.write("package main\n\nimport (\n\t\"github.com/apache/thrift/lib/go/thrift\"\n%s)\n\nvar ctors = map[string]func() thrift.TStruct{\n%s\n}\n" % (
-                "".join('\t"%s/gen/%s"\n' % (MOD, f) for f in sorted(imports)), "\n".join(ctors)))
-        for f in os.listdir(os.path.join(VERIF, "harness", "gen", "runner")):
-            if f.endswith(".go"): shutil.copy(os.path.join(VERIF, "harness", "gen", "runner", f), mod)
-        open(os.path.join(mod, "go.mod"), "w").write("module %s\n\ngo 1.20\n\nrequire github.com/Workiva/frugal/lib/go v0.0.0\n\nreplace github.com/Workiva/frugal/lib/go => %s/lib/go\n" % (MOD, REPO))
-        shutil.copy(os.path.join(REPO, "lib", "go", "go.sum"), os.path.join(mod, "go.sum"))
-        rc, out, err = sh(["go", "build", "-o", "runner", "."], cwd=mod)
-        if rc != 0:
-            return None, "generated Go does not build: " + (out + err)[-3000:]
-        defs_path = os.path.join(scratch, "defs.txt")
-        with open(defs_path, "w") as g:
-            for p in progs: g.write("p%d\t%s\n" % (p.pid, p.defs_code()))
-        inp = "".join("%d\t%s\n" % (i, "\t".join(j)) for i, j in enumerate(jobs))
-        pr = subprocess.run([os.path.join(mod, "runner"), defs_path], input=inp, capture_output=True, text=True, timeout=900)
-        res = [None] * len(jobs)
-        for line in pr.stdout.split("\n"):
-            if "\t" in line:
-                i, _, o = line.partition("\t"); res[int(i)] = o
-        if pr.returncode != 0:
-            return res, "runner exited %d: %s" % (pr.returncode, pr.stderr[-1500:])
-        return res, None
-    finally:
-        shutil.rmtree(scratch, ignore_errors=True)
-
-
-# ------------------------------------------------------------------ suite c02
-def suite_c02(r, n):
-    nprogs = max(1, min(12, n // 40))
-    progs = [gen_prog(r, i) for i in range(nprogs)]
-    jobs, meta = [], []
-    per = max(1, n // nprogs)
-    for p in progs:
-        keys = list(p.structs)
-        if not keys: continue
-        Stat("programs"); Stat("files", len(p.files)); Stat("structs", len(keys)); Stat("typedefs", len(p.typedefs)); Stat("enums", len(p.enums))
-        defs = p.defs_code()
-        for _ in range(per):
-            key = r.pick(keys)
-            kind, fields = p.structs[key]
-            sname, gotype, st = "%s/%s" % key, "%s/%s" % key, Ty("S", file=key[0], name=key[1])
-            v = gen_struct(r, p, key)
-            c = r.intn(10)
-            if c < 4:       # write
-                variant = "valid"
-                if kind == "u" and fields and r.chance(30):
-                    # a union value with 0 or 2 fields set must be refused by Write
-                    if r.chance(50) or len(fields) < 2: v, variant = ("(", {}), "union0"
-                    else:
-                        f1, f2 = r.shuffle(fields)[:2]
-                        v, variant = ("(", {f1[0]: gen_val(r, p, f1[3], 2), f2[0]: gen_val(r, p, f2[3], 2)}), "union2"
-                jobs.append(("w", "p%d" % p.pid, gotype, sname, dump_val(v)))
-                meta.append(("w", p, st, v, variant, "g2w %s %s %s" % (defs, sname, dump_val(v))))
-            elif c < 8:     # read
-                variant, drop, unk = "conforming", None, False
-                reqs = [f[0] for f in fields if f[1] == "r"]
-                cc = r.intn(10)
-                if cc < 3: unk, variant = True, "unknown-fields"
-                elif cc < 5 and reqs and kind != "u": drop, variant = r.pick(reqs), "missing-required"
-                elif cc < 6 and kind == "u" and fields:
-                    if r.chance(50) or len(fields) < 2: v, variant = ("(", {}), "union0"
-                    else:
-                        f1, f2 = r.shuffle(fields)[:2]
-                        v, variant = ("(", {f1[0]: gen_val(r, p, f1[3], 2), f2[0]: gen_val(r, p, f2[3], 2)}), "union2"
-                ev = ";".join(events(r, p, st, v, extra_unknown=unk, drop=drop, top=True))
-                jobs.append(("r", "p%d" % p.pid, gotype, sname, ev))
-                meta.append(("r", p, st, v, variant, "g2r %s %s %s" % (defs, sname, ev)))
-            else:           # real protocols round trip
-                jobs.append(("p", "p%d" % p.pid, gotype, sname, dump_val(v)))
-                meta.append(("p", p, st, v, "valid", "g2p %s %s %s" % (defs, sname, dump_val(v))))
-    res, err = build_and_run(progs, jobs)
-    if res is None:
-        OracleFail("valid IDL was not compiled to Go that builds (C02 needs the generated code)", {"op": "build", "detail": err[:3000]})
-        Stat("evaluations"); Finish(); return
-    if err:
-        OracleFail("the runner crashed while executing generated code", {"op": "run", "detail": err[:2000]})
-    for (op, p, st, v, variant, line), real in zip(meta, res):
-        if real is None: real = "no-result"
-        Case(line, real)
-        Stat("op:%s:%s" % (op, variant)); Stat("outcome:" + real.split(" ")[0]); Stat("evaluations")
-        Sample({"line": line[:600], "real": real[:300]})
-        # ---- the property oracle, from Thrift's rules, independent of the Lean model
-        bad = None
-        if op == "w":
-            if variant == "valid":
-                want = "ok " + tree(p, st, v)
-                if real != want: bad = "generated Write does not produce the declared encoding (field ids, wire types, values, presence)"
-            elif not real.startswith("err:"): bad = "generated Write accepted a union with %s fields set" % variant[-1]
-        elif op == "r":
-            if variant in ("conforming", "unknown-fields"):
-                want = "ok %s rest=0" % canon_dump(p, st, v)
-                if real != want: bad = "generated Read of a conforming encoding (%s) does not reproduce the value" % variant
-            elif not real.startswith("err:"): bad = "generated Read accepted an encoding with %s" % variant
-        else:
-            d = canon_dump(p, st, v)
-            want = "ok binary=%s compact=%s json=%s" % (d, d, d)
-            if real != want: bad = "round trip through a real Thrift protocol does not reproduce the value"
-        if bad:
-            OracleFail(bad, {"op": "g2" + op, "variant": variant, "line": line, "got": real[:2000], "idl": "\n".join(p.text(f) for f in p.files)[:4000]})
-    Finish()
+def load_suites():
+    suites = {}
+    for path in sorted(glob.glob(os.path.join(os.path.dirname(os.path.abspath(__file__)), "suites", "*.py"))):
+        spec = importlib.util.spec_from_file_location("gen_suite_" + os.path.basename(path)[:-3], path)
+        mod = importlib.util.module_from_spec(spec)
+        spec.loader.exec_module(mod)
+        suites.update(mod.SUITES)
+    return suites
 
 
 def main():
@@ -470,8 +30,10 @@ def main():
         elif sys.argv[i] == "-n": n = int(sys.argv[i + 1]); i += 2
         elif sys.argv[i] == "-lines": print("S\tevaluations\t0"); return     # replay of generated-code cases needs the generating run
         else: i += 1
-    r = Rng(seed)
-    {"c02": suite_c02}[suite](r, n)
+    suites = load_suites()
+    if suite not in suites:
+        print("unknown suite", suite, file=sys.stderr); sys.exit(2)
+    suites[suite](genlib.Rng(seed), n)
 
 
 if __name__ == "__main__":
